@@ -221,7 +221,7 @@ func runCheck(cfg *config, spec *engineSpec) int {
 		groups[f.key()] = append(groups[f.key()], f)
 	}
 	keys := sortedKeys(groups)
-	var unknown, knownHit, unconfirmed []string
+	var unknown, knownHit, unconfirmed, slow []string
 	violations := 0
 	var replayPaths []string
 	for gi, k := range keys {
@@ -241,11 +241,18 @@ func runCheck(cfg *config, spec *engineSpec) int {
 		// ones of the class are tried before the class is declared unconfirmed.
 		var f *failure
 		var rf *replayFile
+		rc.replaysAllClean = true
 		for try := 0; try < len(fs) && try < 8 && rf == nil; try++ {
 			f = fs[try]
 			rc.useAlt = f.Alt
 			rf = rc.minimise(f, gi < 6)
 			rc.useAlt = false
+		}
+		if rf == nil && spec.sequentialSUT && rc.replaysAllClean && strings.HasSuffix(strings.SplitN(k, "|", 2)[0], ".hang") {
+			// every replay of every such run completed without a violation, and the code under
+			// test is sequential: the runs were slow under machine load, not stuck
+			slow = append(slow, fmt.Sprintf("%d runs outlived the %v watchdog in the search; %d were replayed in fresh processes (4 times each) and completed without a violation", len(fs), spec.dog(), min(len(fs), 8)))
+			continue
 		}
 		if rf == nil {
 			unconfirmed = append(unconfirmed, fmt.Sprintf("%s (%d runs failed in the search, none of the %d tried reproduced on replay)", k, len(fs), min(len(fs), 8)))
@@ -266,6 +273,10 @@ func runCheck(cfg *config, spec *engineSpec) int {
 		fmt.Printf("[%s] %s (%d runs)\n    %s\n", spec.name, k, len(fs), strings.ReplaceAll(rf.Violation.Detail, "\n", "\n    "))
 	}
 
+	if len(slow) > 0 {
+		rc.info["slow_runs_reclassified"] = slow
+		fmt.Printf("[%s] note: %s\n", spec.name, strings.Join(slow, "; "))
+	}
 	ev := rc.evidence(t0, searchS, sc, violations, knownHit)
 	if err := writeJSON(filepath.Join(cfg.outDir, "evidence", spec.property+".json"), ev); err != nil {
 		die2("write evidence: %v", err)
@@ -352,6 +363,9 @@ func (rc *runCtx) minimise(f *failure, shrink bool) *replayFile {
 		tape = rawTape(f.Seed, f.Run, 1<<15)
 	}
 	timeout := 150 * time.Second
+	if d := rc.spec.dog() + 60*time.Second; d > timeout {
+		timeout = d
+	}
 	// Replay in a fresh process. A simulated run is a pure function of its tape unless the
 	// code under test has concurrency the simulator does not own (e.g. a change that makes
 	// handlers race inside one step): then a replay may show another violation, or none.
@@ -365,6 +379,9 @@ func (rc *runCtx) minimise(f *failure, shrink bool) *replayFile {
 		r := pool[try%len(pool)].eval(tape, false, timeout)
 		k := vkey(r.Res)
 		seenKeys = append(seenKeys, k)
+		if k != "" || r.Crashed {
+			rc.replaysAllClean = false
+		}
 		if k == want || f.Crash && r.Crashed {
 			first, stable = r, try == 0
 			want = k
